@@ -120,7 +120,7 @@ def main(argv):
             if text is None:
                 solved[oname] = ('unsat', 'trivial', 0.0, '')
         groups += r['groups']
-    solved.update(solve_groups(groups, timeout_ms=timeout_ms, second=True, short=('known-full',)))
+    solved.update(solve_groups(groups, timeout_ms=timeout_ms, second=True, short=('known-full', 'must-not-hold')))
 
     # ---- classify
     violations, undecided, kf_lines = [], [], []
@@ -139,6 +139,15 @@ def main(argv):
         for (oname, kind, text, info) in r['obligations']:
             res, backend, secs, model = solved[oname]
             solver_s += secs
+            if kind == 'must-not-hold':
+                # vacuity guard / canary: this query must NOT be unsat (contradictory hypotheses would
+                # make every lemma provable)
+                if res == 'unsat':
+                    undecided.append(dict(obligation=oname, kind=kind, clause='vacuity guard refuted: hypotheses are contradictory',
+                                          solver_result=res, solver_output='', function=fn))
+                st.setdefault('vacuity_guards', 0)
+                st['vacuity_guards'] += 1
+                continue
             if kind.startswith('known-full'):
                 kid = kind.split(':')[1]
                 if res != 'unsat':
